@@ -423,6 +423,14 @@ func evaluate(r *ev.Run, in *caseIn) (out *caseOut) {
 	for _, c := range w.creds { // how well the generator's steering works (coverage only)
 		if id, ok := strings.CutPrefix(c.role, "match:"); ok {
 			out.count("credentials_meant_to_match", 1)
+			if in.tree {
+				out.count("dbg_tree_meant", 1)
+				if sat[id][c.key] {
+					out.count("dbg_tree_meant_sat", 1)
+				} else if undecided[pair(id, c.key)] {
+					out.count("dbg_tree_meant_undecided", 1)
+				}
+			}
 			if sat[id][c.key] {
 				out.count("credentials_meant_to_match_satisfying", 1)
 			} else if in.ds.tree["submission_requirements"] != nil && strings.HasPrefix(w.class, "groups:") {
